@@ -13,7 +13,8 @@ def extract_kernels():
     """Regenerate Extracted/Kernels.lean from the current tree. Returns list of problems (fail closed)."""
     lib = C.build_lib('fiber')
     with C.Lock('kernels'):
-        stamp = os.path.join(lib, 'kernels.lean')
+        import hashlib
+        stamp = os.path.join(lib, 'kernels-%s.lean' % hashlib.sha1(repr(x_kernels.KERNELS).encode()).hexdigest()[:10])
         if os.path.exists(stamp):
             text = open(stamp).read()
             problems = json.load(open(stamp + '.problems'))
